@@ -470,7 +470,7 @@ def _c(t, src="const"):
 
 def drv_tmpl(ch):
     name = ch.all("tmpl", ["slices_split", "scatter_dynamic", "two_reshape_matmul", "expand_binary", "if_nested_fold",
-                           "shared_const"])
+                           "shared_const", "shared_shape"])
     i, f = mz.i, mz.f
     if name == "slices_split":
         last = ch.all("last", [4, 6, 5, "N"])
@@ -537,6 +537,34 @@ def drv_tmpl(ch):
                  {"op": "Relu", "i": [{"n": 1}]}]
         spec = {"ins": [["x", "f32", ["N", 3]]], "nodes": nodes, "outs": [{"n": 2}, {"n": 1}], "wrap": w}
         bind = {"N": 2}
+    elif name == "shared_shape":
+        # one shape tensor (given directly or computed from constants by foldable ops, so that after folding it is an
+        # in-memory tensor) shared by a Reshape-Reshape chain, a second Reshape of another value and a graph output:
+        # a rule that resolves the 0 / -1 entries for ITS chain must not change what the other consumers see
+        # (seeded C03f wrote the resolved dims into the shared tensor)
+        form = ch.all("form", ["concat", "cast", "identity", "direct", "neg"])
+        s2 = ch.all("s2", [[0, -1], [-1, 2], [0, 0], [3, -1], [3, 2]])
+        s1 = ch.all("s1", [[3, 2], [6], [1, 3, 2]])
+        ys = ch.all("y", [[6, 1], [1, 6], [3, 2]])
+        src = ch.choose("src", ["const", "init"])
+        if form == "concat":
+            pre = [{"op": "Concat", "a": {"axis": 0}, "i": [_c(i([s2[0]]), src), _c(i([s2[1]]), src)]}]
+        elif form == "cast":
+            pre = [{"op": "Cast", "a": {"to": mz.TP.INT64}, "i": [_c(mz.T("i32", s2), src)]}]
+        elif form == "identity":
+            pre = [{"op": "Identity", "i": [_c(i(s2), src)]}]
+        elif form == "neg":
+            pre = [{"op": "Neg", "i": [_c(i([-v for v in s2]), src)]}]
+        else:
+            pre = []
+        k = len(pre)
+        sh = {"n": 0} if pre else _c(i(s2), src)
+        nodes = pre + [{"op": "Reshape", "i": [{"x": "x"}, _c(i(s1))]},
+                       {"op": "Reshape", "i": [{"n": k}, sh]},
+                       {"op": "Reshape", "i": [{"x": "y"}, sh]}]
+        outs = [{"n": k + 1}, {"n": k + 2}] + ([{"n": 0}] if pre else [])
+        spec = {"ins": [["x", "f32", [2, 3]], ["y", "f32", ys]], "nodes": nodes, "outs": outs}
+        bind = {}
     else:  # shared_const: one constant feeding two consumers, one of which is folded away
         op = ch.all("op", ["Add", "Mul", "Sub", "Div"])
         v = ch.all("v", [0.0, 1.0])
